@@ -81,6 +81,12 @@ func H_c01_all_t() { c01All(6) }
 // degree constraints are assumed before the bits are pinned, so the solver prunes
 // every prefix that cannot be completed (leaves = the labelled d-regular graphs).
 func c01RegularBits(n, d int, slice bool) [][]bool {
+	return c01RegularBitsX(n, d, slice, false)
+}
+
+// c01RegularBitsX: with c4 the slice is narrowed further to graphs in which vertex 0
+// lies on a 4-cycle 0-1-x-2 (only used with d = 2).
+func c01RegularBitsX(n, d int, slice, c4 bool) [][]bool {
 	bits := make([][]byte, n)
 	for i := range bits {
 		bits[i] = make([]byte, n)
@@ -109,6 +115,14 @@ func c01RegularBits(n, d int, slice bool) [][]bool {
 				rt.Assume(bits[0][u] == 0)
 			}
 		}
+	}
+	if c4 {
+		rt.Assume(bits[1][2] == 0)
+		common := false
+		for x := 3; x < n; x++ {
+			common = rt.Or(common, rt.And(bits[1][x] == 1, bits[2][x] == 1))
+		}
+		rt.Assume(common)
 	}
 	adj := make([][]bool, n)
 	for i := range adj {
@@ -144,3 +158,32 @@ func H_c01_regular7_t() {
 	d := []int{2, 4}[rt.Choice("d", 2)]
 	c01Regular(7, d, false)
 }
+
+// 2-regular graphs (disjoint unions of cycles) and their complements on 9-10 vertices:
+// regular, not vertex-transitive, large automorphism groups - the family where the
+// automorphism back-jump (Heuristic 1) matters.
+func c01Cycles(n int, complement bool) { c01CyclesX(n, complement, false) }
+
+func c01CyclesX(n int, complement, c4 bool) {
+	adj := c01RegularBitsX(n, 2, true, c4)
+	if complement {
+		for i := range adj {
+			for j := range adj {
+				if i != j {
+					adj[i][j] = !adj[i][j]
+				}
+			}
+		}
+	}
+	var taus [][]int
+	for a := 0; a+1 < n; a++ {
+		taus = append(taus, c01Transposition(n, a))
+	}
+	c01Invariant(adj, taus)
+	rt.Reach("end")
+}
+
+func H_c01_cycles10c4_q() { c01CyclesX(10, true, true) }
+func H_c01_cycles10_t()   { c01Cycles(10, false) }
+func H_c01_cycles10c_t()  { c01Cycles(10, true) }
+func H_c01_cycles9_t()    { c01Cycles(9, rt.Choice("complement", 2) == 1) }
